@@ -22,7 +22,7 @@ echo "--- demo on changed tree (expect FAIL):"
 if grep -q 'suite \*KeeperTestSuite\|testify/suite' $DEMO; then R="-run TestKeeper"; A="-testify.m $RUN"; else R="-run $RUN"; A=""; fi
 go test -vet=off -count=1 $R $PKG $A 2>&1 | tail -5
 echo "--- demo on unchanged tree (expect PASS):"
-git stash -q -- $(git diff --name-only) && go test -vet=off -count=1 $R $PKG $A 2>&1 | tail -3; git stash pop -q
+git diff > /tmp/seedcheck-hold.diff; git checkout -- $(git diff --name-only); go test -vet=off -count=1 $R $PKG $A 2>&1 | tail -3; git apply /tmp/seedcheck-hold.diff
 echo "--- applying to /repo and running checks: $*"
 cd /repo && git diff --quiet || { echo "/repo dirty"; exit 1; }
 git apply $OUT/patch.diff || { echo "PATCH DOES NOT APPLY"; exit 1; }
